@@ -101,6 +101,14 @@ func (s *source) FetchAll(ctx context.Context) ([]*model.ProviderInfo, error) {
 			out = append(out, s.rec(pid, v))
 		}
 	}
+	if s.idx == 0 {
+		// providers that are simply always there (the first source lists
+		// them at every refresh): they make the main map larger than the
+		// few providers the sequences are about
+		for i := 0; i < fillers; i++ {
+			out = append(out, s.rec(fixture.Key("ed25519", 200+i).ID, 1))
+		}
+	}
 	s.mu.Unlock()
 	if hook != nil {
 		hook()
@@ -226,6 +234,8 @@ var (
 	// viaHTTP: the cache reads its sources through the library's HTTP source
 	// (WithClient + WithSourceURL) instead of being handed them directly
 	viaHTTP = false
+	// fillers: further providers that the first source always lists
+	fillers = 0
 )
 
 // alphabet3: the third source's own operations and a reduced set of the
@@ -345,6 +355,76 @@ func runSequence(t *testing.T, seq []op) (v *violation) {
 			return 0
 		}
 		ctx := context.Background()
+		// doGet: a lookup of pid, judged against the reference model (also used
+		// after a refresh for providers that have just gone)
+		doGet := func(pid peer.ID, at string) {
+			fetchCount := func() (n int) {
+				for _, s := range srcs {
+					n += s.fetches
+				}
+				return n
+			}
+			before := fetchCount()
+			wasListed := listVer(pid)
+			st := m.get(pid)
+			pi, err := pc.Get(ctx, pid)
+			if err != nil {
+				fail("get-error", "%s: Get failed: %v", at, err)
+				return
+			}
+			got := verOf(pi)
+			nf := fetchCount() - before
+			// what a miss-fetch hands to the cache
+			if nf > 0 {
+				for _, s := range srcs {
+					if !s.fail {
+						m.seen(pid, s.recs[pid])
+					}
+				}
+			}
+			// a provider visible in the listing is served from the cache
+			if wasListed != 0 {
+				if nf != 0 {
+					fail("cached-provider-queried-sources", "%s: Get of a cached provider made %d Fetch calls", at, nf)
+				}
+				if got != wasListed {
+					fail("get-and-list-disagree", "%s: Get returned version %d, List had %d", at, got, wasListed)
+				}
+			} else if st.negative {
+				if nf != 0 {
+					fail("negative-entry-not-remembered", "%s: a provider already found absent was looked up at the sources again (%d Fetch calls)", at, nf)
+				}
+			}
+			if got != 0 {
+				if lv := listVer(pid); lv != got {
+					fail("get-and-list-disagree", "%s: Get returned version %d but List then has %d", at, got, lv)
+				}
+			} else if nf > 0 {
+				st.negative, st.negAt = true, time.Now()
+			}
+			// the other lookups of the same moment agree with Get: a result
+			// expansion for a provider Get returns (it is cached now: no
+			// source is asked) leads with that provider, one for a provider
+			// Get reported absent without asking the sources is empty and
+			// asks nobody either (Len is not compared: it counts the entries
+			// of both maps, remembered-absent ones included, and the property
+			// says nothing about it)
+			if got != 0 || nf == 0 {
+				b2 := fetchCount()
+				res, rerr := pc.GetResults(ctx, pid, []byte("ctx"), []byte("md"))
+				switch {
+				case rerr != nil:
+					fail("get-results-error", "%s: GetResults failed: %v", at, rerr)
+				case fetchCount() != b2:
+					fail("get-results-queried-sources", "%s: Get answered from the cache (version %d) and GetResults then made %d Fetch calls", at, got, fetchCount()-b2)
+				case got != 0 && (len(res) == 0 || res[0].Provider == nil || res[0].Provider.ID != pid):
+					fail("get-and-get-results-disagree", "%s: Get returned version %d, GetResults %d results", at, got, len(res))
+				case got == 0 && len(res) != 0:
+					fail("get-and-get-results-disagree", "%s: Get reported the provider absent, GetResults returned %d results", at, len(res))
+				}
+			}
+
+		}
 		for i, o := range seq {
 			if v != nil {
 				return
@@ -364,50 +444,7 @@ func runSequence(t *testing.T, seq []op) (v *violation) {
 			case "list":
 				pc.List()
 			case "get":
-				fetchCount := func() (n int) {
-					for _, s := range srcs {
-						n += s.fetches
-					}
-					return n
-				}
-				before := fetchCount()
-				wasListed := listVer(o.pid)
-				st := m.get(o.pid)
-				pi, err := pc.Get(ctx, o.pid)
-				if err != nil {
-					fail("get-error", "%s: Get failed: %v", at, err)
-					return
-				}
-				got := verOf(pi)
-				nf := fetchCount() - before
-				// what a miss-fetch hands to the cache
-				if nf > 0 {
-					for _, s := range srcs {
-						if !s.fail {
-							m.seen(o.pid, s.recs[o.pid])
-						}
-					}
-				}
-				// a provider visible in the listing is served from the cache
-				if wasListed != 0 {
-					if nf != 0 {
-						fail("cached-provider-queried-sources", "%s: Get of a cached provider made %d Fetch calls", at, nf)
-					}
-					if got != wasListed {
-						fail("get-and-list-disagree", "%s: Get returned version %d, List had %d", at, got, wasListed)
-					}
-				} else if st.negative {
-					if nf != 0 {
-						fail("negative-entry-not-remembered", "%s: a provider already found absent was looked up at the sources again (%d Fetch calls)", at, nf)
-					}
-				}
-				if got != 0 {
-					if lv := listVer(o.pid); lv != got {
-						fail("get-and-list-disagree", "%s: Get returned version %d but List then has %d", at, got, lv)
-					}
-				} else if nf > 0 {
-					st.negative, st.negAt = true, time.Now()
-				}
+				doGet(o.pid, at)
 			case "refresh", "cancel", "overlap":
 				cctx, cancel := context.WithCancel(ctx)
 				cut := -1
@@ -526,6 +563,8 @@ func runSequence(t *testing.T, seq []op) (v *violation) {
 						} else {
 							st.everReported, st.unreportedAt = false, time.Time{}
 							st.best = 0
+							// gone from the listing: gone for every lookup too
+							doGet(pid, at+" (lookup of the provider that has just gone)")
 						}
 					}
 				}
@@ -563,7 +602,7 @@ func mustParse(s string) time.Time {
 
 func TestCheck(t *testing.T) {
 	r := vp.New("C06", "model_checking",
-		"every sequence of <= depth operations over the alphabet {per-source content changes of provider P (appear, advance, regress on the other source, disappear, without time) and Q, source failure toggles, Refresh, Refresh cancelled while source 0 / source 1 is being read, Refresh overlapped by a second Refresh issued inside a source call, Get of P / Q / a never-reported provider, List, clock advances of ttl/2 and ttl+1s}, each run on a fresh real ProviderCache with two fake sources inside a synctest bubble (virtual clock), compared after every step with a reference model (freshest record ever handed to the cache per provider, first-unreported time, negative entries, Fetch call counts); plus a lifecycle layer of macro steps (change what the sources report for one provider, let 0 / ttl/2 / ttl+1s pass, Refresh): every sequence of 6 (quick) / 7 (thorough) macro steps with one source and of 4 / 5 with two sources, which reaches appear - disappear - reappear - expire histories of 15-25 flat operations; and the flat sequences once more, one operation shallower, with the three advertisement times rendered with a zone offset, in UTC and with fractional seconds, so that the strings sort in the opposite order of the instants; the same depth once more with three sources (alphabet: the third source's content changes and failure, refreshes cancelled while the second / the third source is being read, Get, clock advance) and with the two-source alphabet on a cache constructed with preload, and on one with the automatic-refresh interval set to a value that never falls due (everything must be as with the interval off), and with every source behind the library's own HTTP source (pcache.WithSourceURL; an in-memory server per source), the last three also with the lifecycle layer one / two macro steps shallower (appear - disappear - expire histories). states = distinct sequences; transitions = operations executed; traces = sequences executed on the real cache.",
+		"every sequence of <= depth operations over the alphabet {per-source content changes of provider P (appear, advance, regress on the other source, disappear, without time) and Q, source failure toggles, Refresh, Refresh cancelled while source 0 / source 1 is being read, Refresh overlapped by a second Refresh issued inside a source call, Get of P / Q / a never-reported provider, List, clock advances of ttl/2 and ttl+1s}, each run on a fresh real ProviderCache with two fake sources inside a synctest bubble (virtual clock), compared after every step with a reference model (freshest record ever handed to the cache per provider, first-unreported time, negative entries, Fetch call counts); plus a lifecycle layer of macro steps (change what the sources report for one provider, let 0 / ttl/2 / ttl+1s pass, Refresh): every sequence of 6 (quick) / 7 (thorough) macro steps with one source and of 4 / 5 with two sources, which reaches appear - disappear - reappear - expire histories of 15-25 flat operations; and the flat sequences once more, one operation shallower, with the three advertisement times rendered with a zone offset, in UTC and with fractional seconds, so that the strings sort in the opposite order of the instants; the same depth once more with three sources (alphabet: the third source's content changes and failure, refreshes cancelled while the second / the third source is being read, Get, clock advance) and with the two-source alphabet on a cache constructed with preload, and on one with the automatic-refresh interval set to a value that never falls due (everything must be as with the interval off), and with every source behind the library's own HTTP source (pcache.WithSourceURL; an in-memory server per source), the last three also with the lifecycle layer one / two macro steps shallower (appear - disappear - expire histories). states = distinct sequences; transitions = operations executed; traces = sequences executed on the real cache. Every Get is followed by a GetResults of the same provider, which has to agree with it (a result list led by the provider, or nothing) without asking a source; providers that have just gone from the listing are looked up too. A last pass repeats the alphabet and the lifecycles with three further providers that the first source always lists (the update map is then not merged at every refresh).",
 		"reference model is the oracle (trusted; written from the statement); nothing is asserted right after a refresh that returned an error, only after the next successful one",
 		"expiry is asserted only in histories in which every source responded in every refresh since the provider was last reported",
 		"records are compared by advertisement time, not identity (equal times are not ordered by the statement)",
@@ -665,6 +704,14 @@ func TestCheck(t *testing.T) {
 	preload, refreshInterval, viaHTTP, keyPrefix = false, 0, true, "http-sources|"
 	rec(nil)
 	lifecycle(t, r, thorough, 2)
+	// seventh pass: three further providers that the first source always
+	// lists, so that one or two changed providers do not make the cache merge
+	// its update map into the main map (removal markers and updates stay in
+	// the update map across refreshes)
+	viaHTTP, fillers, keyPrefix = false, 3, "three-further-providers|"
+	rec(nil)
+	lifecycle(t, r, thorough, 1)
+	fillers = 0
 	nSources, preload, refreshInterval, viaHTTP, keyPrefix = 2, false, 0, false, ""
 	t.Logf("violations: %d", r.Violations())
 }
